@@ -324,8 +324,23 @@ def expand_def(d: Def, only=None, depth: int = 6) -> Optional[ast.AST]:
     return expand(d.expr, d.binds, only, depth)
 
 
+_LIT_CACHE: Dict[Tuple[int, bool], list] = {}
+_NRT_CACHE: Dict[int, Set[str]] = {}
+_KEEP: List[ast.AST] = []        # keeps cached nodes alive so that id() stays unique
+
+
 def _literals(test: ast.AST, pol: bool):
-    """Decompose a guard into (atom text, polarity) literals that must all hold (conjunctions only)."""
+    """Decompose a guard into (atom text, polarity) literals that must all hold (conjunctions only).  Memoised per node."""
+    k = (id(test), pol)
+    r = _LIT_CACHE.get(k)
+    if r is None:
+        r = _literals_uncached(test, pol)
+        _LIT_CACHE[k] = r
+        _KEEP.append(test)
+    return r
+
+
+def _literals_uncached(test: ast.AST, pol: bool):
     if isinstance(test, ast.UnaryOp) and isinstance(test.op, ast.Not):
         return _literals(test.operand, not pol)
     if isinstance(test, ast.BoolOp):
@@ -358,11 +373,12 @@ def feasible(conds, assigned: Set[str] = frozenset()) -> bool:
 
 
 def names_read_text(node: ast.AST) -> Set[str]:
-    out = set()
-    for k in names_read(node):
-        out.add(k)
-        # a flag like self.X.Valid is 'assigned' if self.X.Valid is assigned
-    return out
+    r = _NRT_CACHE.get(id(node))
+    if r is None:
+        r = set(names_read(node))
+        _NRT_CACHE[id(node)] = r
+        _KEEP.append(node)
+    return r
 
 
 def cond_text(conds) -> str:
